@@ -176,6 +176,8 @@ fn inserted(tree: &Tree, after: &Snapshot) -> Result<Vec<(String, u128, TokKind)
 pub fn check(c: &C16Case) -> CaseOutcome
 {
     let mut o = CaseOutcome::default();
+    // the configuration path is spelled `Breadlog.yaml`, `./Breadlog.yaml` or absolute, fixed per matrix point
+    let _cfg_form = crate::sandbox::ConfigFormGuard::new((crate::engine::hash_of(c) % 3) as u8);
     let b = build(c, c.lock);
     let (r, before, after, sb) = run_case(&b.tree, c.check_mode);
     o.evals = 1;
